@@ -13,6 +13,7 @@ import (
 	"fmt"
 	"strings"
 	"sync"
+	"sync/atomic"
 	"time"
 
 	go9p "github.com/rminnich/go9p"
@@ -68,6 +69,18 @@ func replyFor(req []byte, kind byte, dotu bool) []byte {
 	case 'M':
 		d := go9p.Dir{Name: name}
 		_ = go9p.PackRstat(out, &d, dotu)
+	case 'L', 'K':
+		// a matching reply of exactly 256 ('L') / 257 ('K') bytes: its size prefix has a low byte of 0 / 1
+		want := 256
+		if kind == 'K' {
+			want = 257
+		}
+		d := go9p.Dir{Name: name + "-"}
+		_ = go9p.PackRstat(out, &d, dotu)
+		if pad := want - len(out.Pkt); pad > 0 {
+			d.Name = name + "-" + strings.Repeat("p", pad)
+			_ = go9p.PackRstat(out, &d, dotu)
+		}
 	case 'E':
 		_ = go9p.PackRerror(out, "scripted:"+name, 77, dotu)
 	default:
@@ -78,14 +91,16 @@ func replyFor(req []byte, kind byte, dotu bool) []byte {
 }
 
 type clntCase struct {
-	sendhold bool // hold the send goroutine right after it received a request, until the failure has struck and the caller returned
-	hold   bool // hold every caller at rpcnb.linked (between unlock and hand-off) until the failure has struck
-	n      int
-	kinds  []byte
-	order  []int
-	points []int // segmentation of the reply stream
-	cut    int   // bytes of the reply stream delivered before the failure (-1: all)
-	end    string
+	sendhold   bool // hold the send goroutine right after it received a request, until the failure has struck and the caller returned
+	holdfirst  bool // hold only the first caller at rpcnb.linked: the later ones are handed over and written
+	hold       bool // hold every caller at rpcnb.linked (between unlock and hand-off) until the failure has struck
+	n          int
+	kinds      []byte
+	order      []int
+	points     []int // segmentation of the reply stream
+	splitHeads bool  // cut 1, 2 and 3 bytes into every reply
+	cut        int   // bytes of the reply stream delivered before the failure (-1: all)
+	end        string
 }
 
 func runClntCase(cs clntCase, dotu bool) (line string, results []callRes) {
@@ -94,6 +109,15 @@ func runClntCase(cs clntCase, dotu bool) (line string, results []callRes) {
 	if cs.sendhold {
 		hookTable.Store(p.clnt, func(point string, obj interface{}, a, b uint32) {
 			if point == "clntsend.dequeued" {
+				<-release
+			}
+		})
+		defer hookTable.Delete(p.clnt)
+	}
+	if cs.holdfirst {
+		var first int32
+		hookTable.Store(p.clnt, func(point string, obj interface{}, a, b uint32) {
+			if point == "rpcnb.linked" && atomic.CompareAndSwapInt32(&first, 0, 1) {
 				<-release
 			}
 		})
@@ -130,10 +154,19 @@ func runClntCase(cs clntCase, dotu bool) (line string, results []callRes) {
 				res[i].own = strings.HasPrefix(e.Err, fmt.Sprintf("scripted:own-%d-", 1000+i))
 			}
 		}(i)
+		if cs.holdfirst && i == 0 {
+			time.Sleep(300 * time.Microsecond) // caller 0 is linked first, and held
+		}
+	}
+	if cs.holdfirst {
+		dl := time.Now().Add(2 * time.Second)
+		for len(p.requests()) < cs.n-1 && time.Now().Before(dl) {
+			time.Sleep(20 * time.Microsecond)
+		}
 	}
 	// wait until all requests were written (held callers have not written anything)
 	deadline := time.Now().Add(3 * time.Second)
-	for !cs.hold && !cs.sendhold && len(p.requests()) < cs.n && time.Now().Before(deadline) {
+	for !cs.hold && !cs.holdfirst && !cs.sendhold && len(p.requests()) < cs.n && time.Now().Before(deadline) {
 		time.Sleep(20 * time.Microsecond)
 	}
 	if cs.hold || cs.sendhold {
@@ -166,12 +199,22 @@ func runClntCase(cs clntCase, dotu bool) (line string, results []callRes) {
 		ends = append(ends, len(stream))
 	}
 	full := len(stream)
+	if cs.splitHeads {
+		prev := 0
+		for _, e := range ends {
+			for d := 1; d <= 3; d++ {
+				cs.points = append(cs.points, prev+d)
+			}
+			prev = e
+		}
+	}
 	switch cs.end {
 	case "garbage":
 		stream = append(stream, 9, 0, 0, 0, go9p.Rwalk, 1, 0, 0xff, 0xff)
-	case "oversize":
+	case "oversize", "oversize1", "oversize2", "oversize8":
+		// a frame announcing more than msize: just over, twice, exactly the buffer, beyond the buffer; nothing follows
 		b := make([]byte, 12)
-		put32(b, 8192*9)
+		put32(b, map[string]uint32{"oversize": 8192 * 9, "oversize1": 8193, "oversize2": 2 * 8192, "oversize8": 8 * 8192}[cs.end])
 		b[4] = go9p.Rstat
 		stream = append(stream, b...)
 	case "undersize":
@@ -226,7 +269,7 @@ func runClntCase(cs clntCase, dotu bool) (line string, results []callRes) {
 		time.Sleep(200 * time.Microsecond)
 		p.clnt.Unmount()
 	}
-	if cs.hold {
+	if cs.hold || cs.holdfirst {
 		time.Sleep(time.Millisecond) // the receive goroutine is now in its shutdown path
 		close(release)
 	}
@@ -284,7 +327,7 @@ func runClntCase(cs clntCase, dotu bool) (line string, results []callRes) {
 	for _, r := range res {
 		fmt.Fprintf(&sb, " %s:%d", r.class, b2i(r.own))
 	}
-	fmt.Fprintf(&sb, " ; LATE %s ; DISTINCT %d ; HANG %d ; TAGSBACK %d", late, b2i(distinct && (cs.hold || cs.sendhold || len(tags) == cs.n)), b2i(hang), b2i(tagsOK || hang))
+	fmt.Fprintf(&sb, " ; LATE %s ; DISTINCT %d ; HANG %d ; TAGSBACK %d", late, b2i(distinct && (cs.hold || cs.holdfirst || cs.sendhold || len(tags) == cs.n)), b2i(hang), b2i(tagsOK || hang))
 	fmt.Fprintf(&sb, " ; DISTURBED %d", b2i(disturbed))
 	return sb.String(), res
 }
@@ -360,7 +403,7 @@ func modeClnt(tier string, args []string) {
 				emit("%s", l)
 				stat("clnt.cut_cases", 1)
 			}
-			for _, end := range []string{"garbage", "oversize", "undersize", "unknowntag", "unmount"} {
+			for _, end := range []string{"garbage", "oversize", "oversize1", "oversize2", "oversize8", "undersize", "unknowntag", "unmount"} {
 				cs := clntCase{n: n, kinds: kinds, order: ord, cut: -1, end: end}
 				if rng.Intn(2) == 0 && n > 0 {
 					cs.cut = 0 // nothing delivered before the failure
@@ -386,6 +429,31 @@ func modeClnt(tier string, args []string) {
 		l, _ := runClntCase(cs, true)
 		emit("%s", l)
 		stat("clnt.held_cases", 1)
+	}
+	// only the first caller is caught there: the later ones are with the writer when the failure strikes
+	for r := 0; r < rounds*4; r++ {
+		n := 2 + r%3
+		cs := clntCase{holdfirst: true, n: n, kinds: []byte("MMMM")[:n], order: rng.Perm(n), cut: 0, end: []string{"eof", "garbage", "unknowntag", "oversize1"}[r%4]}
+		l, _ := runClntCase(cs, true)
+		emit("%s", l)
+		stat("clnt.heldfirst_cases", 1)
+	}
+	// replies of 256 / 257 bytes (low byte of the size prefix 0 / 1) cut after their first, second and third byte
+	for r := 0; r < rounds*2; r++ {
+		for _, kinds := range []string{"L", "K", "ML", "LK", "KLM"} {
+			n := len(kinds)
+			cs := clntCase{n: n, kinds: []byte(kinds), order: rng.Perm(n), cut: -1, end: "none"}
+			// segment boundaries 1, 2 and 3 bytes into every reply (lengths: M about 70, L 256, K 257; measured by the peer)
+			cs.splitHeads = true
+			l, _ := runClntCase(cs, r%2 == 0)
+			emit("%s", l)
+			stat("clnt.longreply_cases", 1)
+		}
+	}
+	// the pipelined Tag interface: requests sharing one tag complete in the order issued
+	for r := 0; r < rounds*3; r++ {
+		emit("%s", runTagCase(2+r%4, r%2 == 0, r%3 == 0))
+		stat("clnt.sharedtag_cases", 1)
 	}
 	// the send goroutine caught between receiving a request and reading it when the connection fails
 	for r := 0; r < rounds*4; r++ {
@@ -548,4 +616,61 @@ func runInterleaved(n int, dotu bool) string {
 	}
 	fmt.Fprintf(&sb, " ; HANG %d ; TAGSBACK %d", b2i(hang), b2i(pool+cached == 65535 || hang))
 	return sb.String()
+}
+
+// the pipelined Tag interface: n reads posted under one shared tag, answered in order
+func runTagCase(n int, dotu bool, oneSegment bool) string {
+	p := newClntPeer(8192, dotu)
+	ch := make(chan *go9p.Req, 32)
+	tag := p.clnt.TagAlloc(ch)
+	fid := p.clnt.FidAlloc()
+	offs := make([]uint64, n)
+	for i := range offs {
+		offs[i] = uint64(10 + 40*i)
+		if err := tag.Read(fid, offs[i], 32); err != nil {
+			return fmt.Sprintf("CT %d ORDER 0 PAIRED 0 HANG 0 NOTE post-failed", n)
+		}
+	}
+	dl := time.Now().Add(2 * time.Second)
+	for len(p.requests()) < n && time.Now().Before(dl) {
+		time.Sleep(20 * time.Microsecond)
+	}
+	var stream []byte
+	for _, r := range p.requests() {
+		fc, _, err := go9p.Unpack(r, dotu)
+		if err != nil || fc.Type != go9p.Tread {
+			continue
+		}
+		out := go9p.NewFcall(8192)
+		_ = go9p.PackRread(out, []byte(fmt.Sprintf("data-at-%d", fc.Offset)))
+		go9p.SetTag(out, fc.Tag)
+		if oneSegment {
+			stream = append(stream, out.Pkt...)
+		} else {
+			p.conn.push(append([]byte{}, out.Pkt...))
+		}
+	}
+	if oneSegment {
+		p.conn.push(stream)
+	}
+	order, paired, hang := true, true, false
+	for i := 0; i < n; i++ {
+		select {
+		case r := <-ch:
+			if r == nil || r.Tc == nil || r.Rc == nil {
+				paired = false
+				continue
+			}
+			if r.Tc.Offset != offs[i] {
+				order = false
+			}
+			if string(r.Rc.Data) != fmt.Sprintf("data-at-%d", r.Tc.Offset) {
+				paired = false
+			}
+		case <-time.After(2 * time.Second):
+			hang = true
+		}
+	}
+	p.clnt.Unmount()
+	return fmt.Sprintf("CT %d ORDER %d PAIRED %d HANG %d NOTE -", n, b2i(order), b2i(paired), b2i(hang))
 }
